@@ -3,6 +3,7 @@
 # to find generated copies (transitions, depth checks, end-of-input actions) that no generated document reaches.
 # usage: selftest/coverage.sh        -> prints the percentages and the uncovered non-dispatch blocks of the machines
 set -u
+mkdir -p /root/scratch
 export GOFLAGS=-mod=mod GOPROXY=off GOSUMDB=off GOTOOLCHAIN=local
 W=$(mktemp -d /root/scratch/cov.XXXXXX); trap 'rm -rf "$W"' EXIT
 sed "s#=> /repo#=> /repo#" /verif/sim/go.mod > "$W/c.mod"; cp /verif/sim/go.sum "$W/c.sum"
